@@ -1,0 +1,40 @@
+//go:build verif
+
+package semap
+
+// VerifEntries returns the number of per-key entries the container keeps
+// (verification hook).
+func VerifEntries(m SemMapper) int {
+	switch s := m.(type) {
+	case *SemMap:
+		s.mux.Lock()
+		defer s.mux.Unlock()
+		return len(s.m)
+	case *WideSemMap:
+		var n int
+		for _, sm := range s.ms {
+			n += VerifEntries(sm)
+		}
+		return n
+	}
+	return -1
+}
+
+// VerifKeyState reports the tokens held and the number of queued waiters of
+// the key's entry, and whether the container has an entry for the key
+// (verification hook).
+func VerifKeyState(m SemMapper, key interface{}) (held int, waiters int, present bool) {
+	switch s := m.(type) {
+	case *SemMap:
+		s.mux.Lock()
+		defer s.mux.Unlock()
+		var w, ok = s.m[key]
+		if !ok {
+			return 0, 0, false
+		}
+		return w.cur, w.waiters.Len(), true
+	case *WideSemMap:
+		return VerifKeyState(s.calculateKey(key), key)
+	}
+	return -1, -1, false
+}
